@@ -141,8 +141,8 @@ func c06Semantics(res *engine.Result, pre string, d psi.PmtDescriptor, want ref.
 			res.Failf(pre+"descriptor-body", "maximum_bitrate decodes to %d, section carries %d", d.DecodeMaximumBitRate(), v)
 		}
 	case 0x05:
-		if !d.IsDolbyVision() {
-			res.Failf(pre+"descriptor-body", "registration descriptor 'DOVI' not recognised")
+		if dovi := len(want.Body) >= 4 && string(want.Body[:4]) == "DOVI"; d.IsDolbyVision() != dovi {
+			res.Failf(pre+"descriptor-body", "registration descriptor % x: IsDolbyVision()=%v", want.Body, !dovi)
 		}
 	case 0x52:
 		if !strings.Contains(d.Format(), ": "+strconv.Itoa(int(want.Body[0]))+"]") {
@@ -687,6 +687,72 @@ func c06CheckPrev(c c06PrevCase) engine.Result {
 	return res
 }
 
+// ---- scenario "crc-collisions": different tables whose CRC_32 fields hold the same value --------------------
+
+type c06ForgeCase struct {
+	Variant int `json:"variant"`
+	First   int `json:"first_packet_payload"`
+}
+
+func c06CheckForge(c c06ForgeCase) engine.Result {
+	var res engine.Result
+	a, b, ok := c14ForgePair(c.Variant)
+	if !ok {
+		res.Failf("harness|crc-forgery-failed", "variant %d", c.Variant)
+		return res
+	}
+	pre := "same-CRC_32-as-the-previous-table|"
+	stream := func(sec *ref.PMTSection, cc byte) (payload, ts []byte) {
+		payload = append(ref.Pointer(0), ref.PMTBytes(*sec, false)...)
+		rest := payload
+		for i := 0; len(rest) > 0; i++ {
+			n := 184
+			if i == 0 {
+				n = c.First
+			}
+			if n > len(rest) {
+				n = len(rest)
+			}
+			chunk := rest[:n]
+			if i > 0 {
+				chunk = ref.PadPayload(chunk, 184)
+			}
+			p := ref.CarryPayload(0x64, i == 0, cc+byte(i), chunk)
+			ts = append(ts, p[:]...)
+			rest = rest[n:]
+		}
+		return payload, ts
+	}
+	engine.Guard(&res, "crc-collisions", func() {
+		var olds []psi.PMT
+		var oldSecs []*ref.PMTSection
+		for i, sec := range []*ref.PMTSection{&a, &b, &a, &b, &b, &a} {
+			payload, ts := stream(sec, byte(3*i))
+			w := c06MakeWant(sec)
+			res.Evals += 2
+			pmt, err := psi.NewPMT(payload)
+			if err != nil || pmt == nil {
+				res.Failf("NewPMT|"+pre+"error", "call %d: %v", i, err)
+				return
+			}
+			c06Verify(&res, "NewPMT|"+pre, pmt, w, true)
+			rp, err := psi.ReadPMT(bytes.NewReader(ts), 0x64)
+			if err != nil || rp == nil {
+				res.Failf("ReadPMT|"+pre+"error", "call %d: %v", i, err)
+				return
+			}
+			c06Verify(&res, "ReadPMT|"+pre, rp, w, true)
+			for k, o := range olds {
+				c06Verify(&res, "NewPMT|"+pre+"earlier-object|", o, c06MakeWant(oldSecs[k]), true)
+			}
+			olds, oldSecs = append(olds, pmt, rp), append(oldSecs, sec, sec)
+		}
+	})
+	res.Nontrivial = 12
+	res.Outcome(c.Variant, c.First)
+	return res
+}
+
 // c06Norm makes nil and empty slices compare equal.
 func c06Norm(s ref.PMTSection) ref.PMTSection {
 	if len(s.ProgDescs) == 0 {
@@ -1037,6 +1103,18 @@ func init() {
 					}
 				},
 				Check: witnessEnum(c06CheckPrev, witnessPSI), Batch: 4,
+			},
+			&engine.Enum[c06ForgeCase]{
+				Name: "crc-collisions",
+				Rule: "4 pairs (A,B) of different well-formed tables whose CRC_32 fields hold the same 32-bit value (four free registration-descriptor bytes solved for over GF(2); B has other stream types / another stream set / other descriptors / the next version_number) x first-packet payload {184,100,20}: NewPMT and ReadPMT in the order A,B,A,B,B,A, every result and every earlier object judged against its own table; all cases in one worker (anything remembered under the CRC_32 between calls shows)",
+				Gen: func(r *engine.Run, emit func(c06ForgeCase)) {
+					for v := 0; v < 4; v++ {
+						for _, f := range []int{184, 100, 20} {
+							emit(c06ForgeCase{v, f})
+						}
+					}
+				},
+				Check: c06CheckForge, Batch: 64,
 			},
 			&engine.Enum[c06HdrCase]{
 				Name: "table-header-codec",
